@@ -1019,6 +1019,22 @@ class Pass3(CompilePass):
                             node=clause.value,
                         )
 
+    def process_read_pre(self, node):
+        for target in node.var_list:
+            if not isinstance(target, Lvalue):
+                raise CompileError(
+                    EC.TYPE_MISMATCH,
+                    'READ needs a variable',
+                    node=target)
+
+    def process_input_pre(self, node):
+        for target in node.var_list:
+            if not isinstance(target, Lvalue):
+                raise CompileError(
+                    EC.TYPE_MISMATCH,
+                    'INPUT needs a variable',
+                    node=target)
+
     def process_print_pre(self, node):
         if node.format_string and \
            node.format_string.type != Type.STRING:
